@@ -3,4 +3,4 @@ From QV Require Import TQueue.Model.
 Require Extraction.
 Require Import ExtrOcamlBasic.
 Extraction Language OCaml.
-Extraction "../ocaml/gen/c08_model.ml" init_sys step run getq getst sim sched_run qrun next_idx dequeue_steal enqueue_multiple.
+Extraction "../ocaml/gen/c08_model.ml" init_sys step run getq getst sim sched_run qrun next_idx dequeue_steal enqueue_multiple dequeue_worker wrun.
